@@ -6,6 +6,11 @@ use std::{collections::BTreeMap, fs, path::Path};
 
 /// content id -> bytes; sizes and alphabets vary with the id
 fn content(id: i64) -> Vec<u8> {
+    if id.rem_euclid(7) == 2 {
+        // 150 KB that do not compress: exercises the compressing rollers beyond their internal buffers
+        let mut r = crate::rng::Rng::new(id as u64 + 99);
+        return (0..150_000).map(|_| r.next() as u8).collect();
+    }
     match id.rem_euclid(5) {
         0 => format!("content-{}\n", id).into_bytes(),
         1 => vec![],
